@@ -46,7 +46,7 @@ CHECKS = {
     ),
     "C14": dict(
         level="model_checking",
-        rule="configuration (parent scope x generateSelector x ignoreStatusChanges x controller selector) x every event shape: parent add/delete/tombstone/6 update kinds/resync for matching, non-matching and finalizer-carrying parents; child add/update/delete/tombstone/resync for 14 roles; related-object events (8); "
+        rule="configuration (parent scope x generateSelector x ignoreStatusChanges x controller selector) x every event shape: parent add/delete/tombstone/6 update kinds/resync for matching, non-matching and finalizer-carrying parents; child add/update/delete/tombstone/resync for 15 roles (incl. a controller reference naming the parent kind in another API version); related-object events (8); "
              "each case = fresh world with the real Start()-installed handlers, one delivered event, queue compared with the decision table",
         units=[
             dict(pkg=COMPOSITE, test="TestVerifC14", shards=dict(quick=4, thorough=4), budget=dict(quick=300, thorough=600)),
@@ -66,7 +66,7 @@ CHECKS = {
     "C13": dict(
         level="model_checking",
         rule="grammar: valid response with every node replaced by each of 12 JSON values (missing, null, true, 0, -1, 1e400, 2^63, string, [], [null], {}, {x:null}); singles exhaustively (thorough: all pairs for the base configurations) + 17 raw bodies + 6 non-200 statuses, "
-             "x mode(non-rolling, rolling, rolling with two live revisions, finalizing) x generateSelector x strict/loose, for composite sync/finalize, customize and decorator sync/finalize responses; every case distinct",
+             "x mode(non-rolling, rolling, rolling with two live revisions, finalizing) x generateSelector x strict/loose, for composite sync/finalize, customize and decorator sync/finalize responses; every rejected or failing case is followed by the work-queue retry (same parent, same answer: no panic, rejected again, no writes) and, for customize answers, by a related-object event; every case distinct",
         units=[
             dict(pkg=COMPOSITE, test="TestVerifC13", shards=dict(quick=12, thorough=16), budget=dict(quick=600, thorough=3000)),
             dict(pkg=DECORATOR, test="TestVerifC13", shards=dict(quick=4, thorough=16), budget=dict(quick=600, thorough=3000)),
@@ -105,7 +105,7 @@ CHECKS = {
     "C10": dict(
         level="model_checking",
         rule="explicit-state BFS over parent life cycles per configuration (finalize hook none/keep/teardown/finalized-at-once x rolling x hook removed later): events create, relabel (match/unmatch), delete background/foreground/orphan, foreign finalizer add/drop, spec edit, deliverAll, gc, reconfigure, sync, sync with a caused conflict / injected 500 on the finalizer write; "
-             "two roots (empty cluster; steady parent with children); state = canonical store + caches + staleness + one-shot budgets; monitors F1-F7 on every sync transition",
+             "two roots (empty cluster; steady parent with children); state = canonical store + caches + staleness + one-shot budgets; monitors F1-F8 on every sync transition (F8: in a fault-free sync on a fresh cache in which every finalize answer said finalized:true the finalizer does come off)",
         units=[
             dict(pkg=COMPOSITE, test="TestVerifC10", shards=dict(quick=15, thorough=15), budget=dict(quick=240, thorough=3000)),
             dict(pkg=DECORATOR, test="TestVerifC10", shards=dict(quick=7, thorough=7), budget=dict(quick=240, thorough=3000)),
@@ -115,7 +115,7 @@ CHECKS = {
     ),
     "C01": dict(
         level="model_checking",
-        rule="configuration (parent scope x 1-2 child kinds x 6 update methods x generateSelector x finalize hook x dynamic/server-side apply) x hook program (static 0-2, fromSpec, ordered StatefulSet-like, echoStatus) x initial cluster contents (two desired-name slots over {absent, owned, owned drifted, owned+foreign field, matching orphan, drifted orphan} x stale owned child x foreign-owned look-alike x same name in the other namespace) "
+        rule="configuration (parent scope x 1-2 child kinds x 6 update methods x generateSelector x finalize hook x dynamic/server-side apply) x hook program (static 0-2, fromSpec, ordered StatefulSet-like, echoStatus) x initial cluster contents (two desired-name slots over {absent, owned, owned drifted, owned+foreign field, matching orphan, drifted orphan} x stale owned child x foreign-owned look-alike x same name in the other namespace; cluster-scoped parents: every desired child also has a same-named twin in a second namespace) "
              "x stale-cache deviations (thorough: partial delivery in the first 0-2 rounds); each scenario is driven `sync; deliver; gc` to quiescence within N rounds, then one more sync; quick tier = a covering sub-product",
         units=[
             dict(pkg=COMPOSITE, test="TestVerifC01", shards=dict(quick=12, thorough=16), budget=dict(quick=600, thorough=3300)),
@@ -126,7 +126,7 @@ CHECKS = {
     "C08": dict(
         level="model_checking",
         rule="all fair rollouts: children n=1..3 (thorough 4) x parent/child scope (namespaced/namespaced, cluster/namespaced, cluster/cluster) x RollingInPlace/RollingRecreate x status checks on/off x generateSelector on/off x the sync index (-1..3n+4) at which a second spec change arrives; "
-             "fair environment after every sync (caches delivered, GC, every child healthy and observed); completion within 2n+6 / 3n+6 syncs; first change template or template+scale-down, second change template / scale-down / scale-up, Updated=True, exactly one ControllerRevision; never 'missing child' for a cached child",
+             "fair environment after every sync (caches delivered, GC, every child healthy and observed); completion within 2n+6 / 3n+6 syncs; first change template or template+scale-down, second change template / scale-down / scale-up, Updated=True, exactly one ControllerRevision; never 'missing child' for a cached child; plus two rolling child kinds whose children share names (n=1..2, thorough 3), the second kind dropped / brought back by a revisioned field before or during a template rollout (first change tpl / tpl+drop / drop, second change tpl / drop / tpl+drop / add / scale-down at every sync index)",
         units=[
             dict(pkg=COMPOSITE, test="TestVerifC08", shards=dict(quick=8, thorough=16), budget=dict(quick=300, thorough=1200)),
         ],
@@ -154,7 +154,7 @@ CHECKS = {
     "C12": dict(
         level="fault_enumeration",
         rule="base scenarios: composite 'mixed' sync (finalizer add, adopt, release, delete undesired, in-place update, recreate, create, status write), composite 'rolling' (second move of a rollout: ControllerRevision writes + child update), decorator 'mixed' (finalizer, label/annotation/status writes, attachment create/update/recreate/delete); "
-             "every request of the sync x each of 404, 409, 410, 422, 500, timeout, lost response (singles exhaustively; thorough: all pairs of requests for 409/500/timeout), sticky per-child failures x 3 kinds, a failing child combined with a benign end of the status path, hook 500/503/429/refused/garbage; each through the real processNextWorkItem, then fault-free to quiescence",
+             "every request of the sync x each of 404, 409, 410, 422, 500, timeout, lost response (singles exhaustively; thorough: all pairs of requests for 409/500/timeout), sticky per-child failures x 3 kinds, a failing child combined with a benign end of the status path, hook 500/503/429/refused/garbage; real benign races (the environment really removes / edits the target just before each child get/update/delete: tolerated = the hook is still called, no error is reported, same final state); each through the real processNextWorkItem, then fault-free to quiescence",
         units=[
             dict(pkg=COMPOSITE, test="TestVerifC12", shards=dict(quick=8, thorough=16), budget=dict(quick=300, thorough=1800)),
             dict(pkg=DECORATOR, test="TestVerifC12", shards=dict(quick=2, thorough=4), budget=dict(quick=300, thorough=900)),
@@ -164,7 +164,7 @@ CHECKS = {
     ),
     "C04": dict(
         level="model_checking",
-        rule="part 1: selector form(6: matchLabels, In, NotIn, Exists, generated, empty) x object labels(3) x owner-reference list(6) x object deleting(2) x cached parent alive/deleting x live parent(4: same, deleting, replaced UID, gone) x children and ControllerRevisions x desired-child labels match/no-match, one real sync each; "
+        rule="part 1: selector form(6: matchLabels, In, NotIn, Exists, generated, empty) x object labels(3) x owner-reference list(6) x object deleting(2) x cached parent alive/deleting x live parent(4: same, deleting, replaced UID, gone) x children and ControllerRevisions x desired-child labels match/no-match x the live object's other owner references diverging from the cached ones (one added / one removed since observed: neither dropped nor resurrected), one real sync each; "
              "part 2: two parents with the same selector adopt one orphan concurrently - all interleavings at API-request granularity with at most 2 preemptions (thorough: unbounded) under the cooperative scheduler",
         units=[
             dict(pkg=COMPOSITE, test="TestVerifC04", shards=dict(quick=4, thorough=8), budget=dict(quick=300, thorough=1800)),
@@ -173,17 +173,17 @@ CHECKS = {
     ),
     "C02": dict(
         level="model_checking",
-        rule="part 1: a rich composite sync (create, in-place update, recreate, delete undesired, adopt, release; desired names occupied by a foreign-owned object and by a non-matching orphan; same-named look-alikes in the other namespace) under dynamic and server-side apply x every request boundary (0 = before the sync: stale cache) x environment action (delete, delete+recreate, foreign controller, clear owners, relabel) x target object(8), then a second sync on the partly stale caches; "
+        rule="part 1: a rich composite sync (create, in-place update, recreate, delete undesired, adopt, release; desired names occupied by a foreign-owned object and by a non-matching orphan; same-named look-alikes in the other namespace) under dynamic and server-side apply x every request boundary (0 = before the sync: stale cache) x environment action (delete, delete+recreate, foreign controller, clear owners, relabel) x target object(8), then a second sync on the partly stale caches (thorough: every PAIR of environment actions, ~410 000 cases, from a restored snapshot); bystanders include objects that list the parent as a plain, non-controller owner; "
              "part 2: two parents with overlapping selectors syncing concurrently, all interleavings at API-request granularity with <= 2 (thorough 3) preemptions; part 3: the decorator counterpart (attachments controlled by the target AND carrying the decorator's marker; environment action 'other decorator's marker'); every store-changing request is judged against its logged pre-state",
         units=[
-            dict(pkg=COMPOSITE, test="TestVerifC02", shards=dict(quick=8, thorough=16), budget=dict(quick=600, thorough=1800)),
+            dict(pkg=COMPOSITE, test="TestVerifC02", shards=dict(quick=8, thorough=16), budget=dict(quick=600, thorough=3000)),
             dict(pkg=DECORATOR, test="TestVerifC02", shards=dict(quick=4, thorough=8), budget=dict(quick=600, thorough=1800)),
         ],
         assumptions=SIM_ASSUMPTIONS + ["'modified' = the store changed (a byte-identical update accepted as a no-op is not judged)", "one environment deviation per run (thorough: the second sync adds a second stale step)"],
     ),
     "C17": dict(
         level="model_checking",
-        rule="(a) rollout histories (bring-up, two template edits -> three live revisions, delete -> finalize) x revision field paths (default, spec.template, spec.template.ver) x customize x finalize x dynamic/server-side apply x a 500 injected at every single request position of the history: cache fingerprint (pointer + content) around every sync and 'the hook was sent what the server delivered'; "
+        rule="(a) rollout histories (bring-up, two template edits -> three live revisions, delete -> finalize) x revision field paths (default, spec.template, spec.template.ver) x customize x finalize x dynamic/server-side apply/dynamic with log verbosity 10 (code behind V(n).Enabled() guards) x a 500 injected at every single request position of the history: cache fingerprint (pointer + content) around every sync and 'the hook was sent what the server delivered'; "
              "(b) two workers syncing distinct rolling parents that share every informer, the customize cache and the SSA memo: all interleavings at API-request/hook granularity with <= 2 (thorough 3) preemptions, outcome (store + hook-request multiset) must equal a serial order's; "
              "(c) supplementary, outside the family: the same bodies free-running under the race detector (60 / 300 repetitions x 4 rounds x 3 concurrent syncs with parallel per-revision hook calls)",
         units=[
